@@ -241,6 +241,33 @@ def doBatch (toks : List String) : String :=
     | _, _, _ => "bad-op"
   | _ => "bad-op"
 
+def natList? : List String → Option (List Nat)
+  | [] => some []
+  | x :: xs => do
+    let n ← x.toNat?
+    let r ← natList? xs
+    pure (n :: r)
+
+/-- `scache <payload> <c1,c2,…> {oracle}*`: `eth_tx.Sender` called in sequence on ONE decoded
+    transaction object with EIP-155 signers of the given chain ids. -/
+def doScache (toks : List String) : String :=
+  match toks with
+  | enc :: cs :: rest =>
+    match ofHex? enc, natList? (cs.splitOn ","), parseOracles rest with
+    | some enc, some cs, some t =>
+      let cr := t.crypto
+      match decodeTx enc with
+      | none => "err-decode"
+      | some e =>
+        match firstMissing t (cs.flatMap (fun c => ethSenderQueries cr c e)) with
+        | some q => "oracle-miss " ++ queryName q
+        | none =>
+          String.intercalate " " ((senderRun cr e none cs).map (fun o => match o with
+            | some a => toHex a
+            | none => "err"))
+    | _, _, _ => "bad-op"
+  | _ => "bad-op"
+
 def doSer (toks : List String) : String :=
   match parseTx toks with
   | some tx => toHex (ser tx)
@@ -256,6 +283,7 @@ def step (_ : Unit) (line : String) : Unit × String :=
   | "fsigv" :: rest => ((), doFsigv rest)
   | "nsig" :: rest => ((), doNsig rest)
   | "batch" :: rest => ((), doBatch rest)
+  | "scache" :: rest => ((), doScache rest)
   | _ => ((), "bad-op")
 
 def run : IO Unit := runLines () step
